@@ -98,6 +98,8 @@ TARGETS = [
     T('kingdon/codegen.py', 'codegen_unpolarity', 'codegen_unpolarity', [('x', MV, 'mv')], MV, tparams=COEF, uses_alg=True, uses_ops=True),
     T('kingdon/codegen.py', 'codegen_hitzer_inv', 'codegen_hitzer_inv', [('x', MV, 'mv')], f'{MV} × α',
       locals={'num': (MV, 'mv')}, tparams=COEF, uses_alg=True, uses_ops=True, consts={'symbolic': True}, self_name='alg'),
+    T('kingdon/algebra.py', 'Algebra._blade2canon', 'blade2canon', [('basis_blade', 'List Char', 'str')], 'List Char × Int',
+      uses_alg=True, self_name='self', locals={'bin': ('Int', 'int')}),
     # ---- method mode: the operator dictionaries (operator_dict.py) ----
     T('kingdon/operator_dict.py', 'OperatorDict.__getitem__', 'operatordict_getitem', [('keys_in', 'κ', 'key')], 'ρ × φ', tparams=ODT,
       env=ODENV, state_type=ODSTATE, state=OD_STATE, drop_assign=['mvs'], locals=OD_LOCALS,
@@ -134,6 +136,7 @@ structure Alg where
   signs : Int × Int → Int
   len : Int
   bin2canon : Py.Dict Int (List Char)
+  canon2bin : Py.Dict (List Char) Int
   signature : List Int
   start_index : Int
   d : Int
@@ -230,6 +233,8 @@ class Tr:
     def _target_names(self, tg):
         if isinstance(tg, ast.Name):
             return [tg.id]
+        if isinstance(tg, ast.Starred):
+            return []
         if isinstance(tg, (ast.Tuple, ast.List)):
             return [n for e in tg.elts for n in self._target_names(e)]
         return []
@@ -250,6 +255,8 @@ class Tr:
     def pat(self, tg):
         if isinstance(tg, ast.Name):
             return tg.id
+        if isinstance(tg, ast.Starred):
+            return '_'
         if isinstance(tg, (ast.Tuple, ast.List)):
             return '(' + ', '.join(self.pat(e) for e in tg.elts) + ')'
         raise Unsupported(f'assignment target {ast.dump(tg)}')
@@ -322,6 +329,8 @@ class Tr:
                 return f'(ops.{ {"BitXor": "op", "BitOr": "ip"}[op] } {a} {b})', 'mv'
             if op in ('BitXor', 'BitOr', 'BitAnd'):
                 return f'(Py.{ {"BitXor": "xor", "BitOr": "lor", "BitAnd": "land"}[op] } {a} {b})', 'int'
+            if op == 'Pow' and ka == 'int' and kb == 'int':
+                return f'(Py.pow {a} {b})', 'int'
             sym = {'Add': '+', 'Sub': '-', 'Mult': '*', 'Mod': '%'}.get(op)
             if sym is None:
                 raise Unsupported(f'binary operator {op}')
@@ -409,7 +418,9 @@ class Tr:
                 if attr in ('signs',):
                     return 'alg.signs', 'signs'
                 if attr == 'bin2canon':
-                    return 'alg.bin2canon', 'dict'
+                    return 'alg.bin2canon', 'dict:str'
+                if attr == 'canon2bin':
+                    return 'alg.canon2bin', 'dict:int'
                 if attr == 'signature':
                     return 'alg.signature', 'list'
                 if attr == 'start_index':
@@ -452,6 +463,38 @@ class Tr:
             return self.call(node)
         if isinstance(node, ast.Dict) and not node.keys:
             return '[]', 'dict'
+        if isinstance(node, ast.JoinedStr):
+            parts = []
+            for v in node.values:
+                if isinstance(v, ast.Constant) and isinstance(v.value, str):
+                    parts.append('[' + ', '.join(f"'{ch}'" for ch in v.value) + ']')
+                elif isinstance(v, ast.FormattedValue) and v.conversion == -1 and v.format_spec is None:
+                    c, k = self.E(v.value)
+                    if k == 'char':
+                        parts.append(f'[{c}]')
+                    elif k == 'int':
+                        parts.append(f'(Py.strOfInt {c})')
+                    elif k == 'str':
+                        parts.append(c)
+                    else:
+                        raise Unsupported(f'f-string field of kind {k}')
+                else:
+                    raise Unsupported('f-string form')
+            return '(' + ' ++ '.join(parts) + ')', 'str'
+        if isinstance(node, (ast.GeneratorExp, ast.ListComp)):
+            if len(node.generators) != 1 or node.generators[0].ifs:
+                raise Unsupported('comprehension form')
+            g = node.generators[0]
+            it, kit = self.E(g.iter)
+            saved = dict(self.kinds)
+            if isinstance(g.target, ast.Name):
+                self.kinds[g.target.id] = 'char' if kit == 'str' else None
+            npre = len(self.pre)
+            body, kb = self.E(node.elt)
+            self.kinds = saved
+            if len(self.pre) != npre or '←' in body:
+                raise Unsupported('comprehension whose element can raise')
+            return f'(({it}).map (fun {self.pat(g.target)} => {body}))', 'list'
         if isinstance(node, ast.DictComp):
             return self.dictcomp(node)
         raise Unsupported(f'expression {type(node).__name__}')
@@ -545,6 +588,8 @@ class Tr:
                 return f'(Py.dictOf {self.E(args[0])[0]})', 'dict'
             if n == 'Fraction' and len(args) == 2 and not kw:
                 return f'({self.E(args[0])[0]}, {self.E(args[1])[0]})', 'tuple'
+            if n == 'reduce' and len(args) == 2 and ast.unparse(args[0]) == 'operator.or_':
+                return f'(← Py.reduce Py.lor {self.E(args[1])[0]})', 'int'
             if n in BY_PY:
                 return self.call_target(BY_PY[n], args, kw)
             if self.kinds.get(n) == 'fun':
@@ -566,6 +611,11 @@ class Tr:
                 return f'(ops.{f.attr} {v} {self.E(args[0])[0]})', 'mv'
             if kv == 'mv' and self.t.uses_ops and f.attr == 'grade' and args:
                 return f'(ops.grade {v} [' + ', '.join(self.E(a)[0] for a in args) + '])', 'mv'
+            if f.attr == 'get' and (kv or '').startswith('dict') and len(args) == 2:
+                if isinstance(args[1], ast.Constant) and args[1].value is False:
+                    # `d.get(k, False)`: absent or the value; python then tests its truthiness
+                    return f'(Py.dictGet? {v} {self.E(args[0])[0]})', 'opt:' + (kv[5:] if kv.startswith('dict:') else 'val')
+                return f'(Py.dictGetD {v} {self.E(args[0])[0]} {self.E(args[1])[0]})', (kv[5:] if kv.startswith('dict:') else None)
             if f.attr == 'items' and kv in ('mv', 'dict') and not args:
                 return v, 'list'
             if f.attr == 'values' and kv in ('mv', 'dict') and not args:
@@ -783,6 +833,17 @@ class Tr:
             if isinstance(st.test, ast.Name) and st.test.id in self.t.consts:
                 # partial evaluation on a parameter fixed by the TARGETS table
                 return self.block(st.body if self.t.consts[st.test.id] else st.orelse, ind) if (st.body if self.t.consts[st.test.id] else st.orelse) else []
+            if isinstance(st.test, ast.Name) and (self.kinds.get(st.test.id) or '').startswith('opt:') and not st.orelse:
+                # `x = d.get(k, False)` ... `if x:`  — present and truthy
+                n = st.test.id
+                old = self.kinds[n]
+                self.kinds[n] = old[4:]
+                out = self.flush(ind) + [f'{ind}if let some {n} := {n} then', f'{ind}  if (Py.truthy {n}) then']
+                dsaved = set(self.declared)
+                out += self.block(st.body, ind + '    ')
+                self.declared = dsaved | {m for m in self.declared if m in dsaved}
+                self.kinds[n] = old
+                return out
             t = self.truth(st.test)
             out = self.flush(ind) + [f'{ind}if {t} then']
             dsaved = set(self.declared)
@@ -818,7 +879,7 @@ class Tr:
             ps.append('(ops : Ops α)')
         ps += [f'({p} : {ty})' for p, ty, _ in t.params]
         names = [a.arg for a in self.fn.args.args]
-        if t.env and names[:1] == ['self']:
+        if (t.env or t.self_name == 'self') and names[:1] == ['self']:
             names = names[1:]
         if [n_ for n_ in names if n_ not in t.consts] != [p for p, _, _ in t.params]:
             raise Unsupported(f'signature changed: {names}')
